@@ -62,13 +62,12 @@ Definition midA_finish (m : mid) (st : Z * list Z) (n next_end : Z) : Z * list Z
   let '(mem, offs) := st in
   (mid_finish m mem n (Z.land next_end (Z.ones (m_nb m))), 0 :: fst (write_next (m_nb m) (offs, []) n next_end)).
 
-(* Find: the same search; the child range through ArrayBhiksha::ReadNext.  `count` = number of records + 1 (the closing record). *)
-Definition midA_find (m : mid) (fuel : nat) (count : nat) (st : Z * list Z) (word b e : Z) : option (option (Z * Z * Z * Z)) :=
+(* Find: the same search; the child range through ArrayBhiksha::ReadNext: the offset table and the inline bits of this and the following record *)
+Definition midA_find (m : mid) (fuel : nat) (st : Z * list Z) (word b e : Z) : option (option (Z * Z * Z * Z)) :=
   let '(mem, offs) := st in
   match mid_find m fuel mem word b e with
-  | Some (Some (p, pay, _, _)) =>
-      let inls := map (fun k => ReadInt57 mem (m_base m) (Z.of_nat k * m_tb m + m_wb m + m_qb m) (m_nb m) (Z.ones (m_nb m))) (seq 0 count) in
-      let '(cb, ce) := read_next (m_nb m) (offs, inls) p in
+  | Some (Some (p, pay, lowa, lowb)) =>
+      let '(cb, ce) := read_next2 (m_nb m) offs p lowa lowb in
       Some (Some (p, pay, cb, ce))
   | Some None => Some None
   | None => None
